@@ -918,3 +918,13 @@ func init() {
 	mut("C17", "(benign) v3 PayByContract through a pointer local", false, "",
 		Edit{"rhp/v3/rhp.go", "\trev.MissedProofOutputs[types.HostContractIndex].Value = rev.MissedProofOutputs[types.HostContractIndex].Value.Add(amount)\n", "\tmh := &rev.MissedProofOutputs[types.HostContractIndex]\n\tmh.Value = mh.Value.Add(amount)\n"})
 }
+
+func init() {
+	// ---- round 8 rules ----
+	mut("C01", "Foundation subsidy loses its before-the-hardfork guard", true, "foundation-not-before-hardfork",
+		Edit{"consensus/state.go", "\tif s.childHeight() < hardforkHeight || (s.childHeight()-hardforkHeight)%blocksPerMonth != 0 {", "\tif (s.childHeight()-hardforkHeight)%blocksPerMonth != 0 {"})
+	mut("C10", "length prefix compared in the signed domain", true, "bytes-prefix-vs-remaining",
+		Edit{"types/encoding.go", "\tn := d.ReadUint64()\n\tif n > uint64(d.lr.N) {\n\t\td.SetErr(fmt.Errorf(\"encoded object contains invalid length prefix (%v elems > %v bytes left in stream)\", n, d.lr.N))\n\t\treturn nil\n\t}\n\tb := make([]byte, n)", "\tn := d.ReadUint64()\n\tif int64(n) > d.lr.N {\n\t\td.SetErr(fmt.Errorf(\"encoded object contains invalid length prefix (%v elems > %v bytes left in stream)\", n, d.lr.N))\n\t\treturn nil\n\t}\n\tb := make([]byte, n)"})
+	mut("C11", "decoder hands a shared helper the valid/missed values in swapped order", true, "mirror|rhp/v2|RPCSectorRootsRequest",
+		Edit{"rhp/v2/encoding.go", "func (r *RPCSectorRootsRequest) DecodeFrom(d *types.Decoder) {\n\tr.RootOffset = d.ReadUint64()\n\tr.NumRoots = d.ReadUint64()\n\tr.RevisionNumber = d.ReadUint64()\n\ttypes.DecodeSliceCast[types.V1Currency](d, &r.ValidProofValues)\n\ttypes.DecodeSliceCast[types.V1Currency](d, &r.MissedProofValues)", "func (r *RPCSectorRootsRequest) DecodeFrom(d *types.Decoder) {\n\tr.RootOffset = d.ReadUint64()\n\tr.NumRoots = d.ReadUint64()\n\tr.RevisionNumber = d.ReadUint64()\n\ttypes.DecodeSliceCast[types.V1Currency](d, &r.MissedProofValues)\n\ttypes.DecodeSliceCast[types.V1Currency](d, &r.ValidProofValues)"})
+}
